@@ -45,7 +45,7 @@ pub const OPTS: &[Opt] = &[
     Opt { name: "max-inflight", section: "strategy", kind: Kind::Num, values: &["1", "8", "24", "255"], default: "24" },
     Opt { name: "first-ttl", section: "strategy", kind: Kind::Num, values: &["1", "2", "5"], default: "1" },
     Opt { name: "max-ttl", section: "strategy", kind: Kind::Num, values: &["10", "30", "64", "254"], default: "64" },
-    Opt { name: "packet-size", section: "strategy", kind: Kind::Num, values: &["48", "84", "500", "1024"], default: "84" },
+    Opt { name: "packet-size", section: "strategy", kind: Kind::Num, values: &["28", "40", "48", "84", "500", "1024"], default: "84" },
     Opt { name: "payload-pattern", section: "strategy", kind: Kind::Num, values: &["0", "42", "255"], default: "0" },
     Opt { name: "tos", section: "strategy", kind: Kind::Num, values: &["0", "16", "224", "255"], default: "0" },
     Opt { name: "icmp-extensions", section: "strategy", kind: Kind::Flag, values: &["true", "false"], default: "false" },
